@@ -50,10 +50,7 @@ func (h *NFSProcedureHandler) handleReaddir(body io.Reader, reply *RPCReply, aut
 		return nfsErrorWithPostOp(reply, NFSERR_STALE), nil
 	}
 
-	// R4: Copy attrs under RLock for dir check
-	dir.mu.RLock()
-	dirMode := dir.attrs.Mode
-	dir.mu.RUnlock()
+	dirMode := h.currentMode(dir)
 
 	if dirMode&os.ModeDir == 0 {
 		return nfsErrorWithPostOp(reply, NFSERR_NOTDIR), nil
@@ -193,10 +190,7 @@ func (h *NFSProcedureHandler) handleReaddirplus(body io.Reader, reply *RPCReply,
 		return nfsErrorWithPostOp(reply, NFSERR_STALE), nil
 	}
 
-	// R4: Copy attrs under RLock for dir check
-	dir.mu.RLock()
-	dirMode := dir.attrs.Mode
-	dir.mu.RUnlock()
+	dirMode := h.currentMode(dir)
 
 	if dirMode&os.ModeDir == 0 {
 		return nfsErrorWithPostOp(reply, NFSERR_NOTDIR), nil
